@@ -3,7 +3,7 @@ package main
 // Lock-order extraction (C18): a typed analysis (go/packages + go/types) of packages column and commit.
 //
 // Lock classes: coll (Collection.lock), shard (one latch of Collection.slock), column (column.lock),
-// key (columnKey.lock), back (columnSortIndex.backLock), log (commit.Log.lock).
+// key (columnKey.lock), back (columnSortIndex.backLock), log (commit.Log.lock), enum (columnEnum.lock).
 // For every function the analysis walks the body in order, tracking the set of classes held
 // (Lock/RLock add, Unlock/RUnlock remove, a deferred unlock keeps the lock to the end), and
 // records an edge A -> B whenever B is acquired - directly, through a callee (transitively), or
@@ -43,7 +43,7 @@ type lockAn struct {
 
 var fieldClass = map[string]string{
 	"Collection.lock": "coll", "column.lock": "column", "columnKey.lock": "key",
-	"columnSortIndex.backLock": "back", "Log.lock": "log",
+	"columnSortIndex.backLock": "back", "Log.lock": "log", "columnEnum.lock": "enum",
 }
 
 func namedOf(t types.Type) string {
@@ -332,14 +332,14 @@ func genLockGraph(repo, out string) error {
 		}
 		a.walk(f, f.decl.Body, map[string]bool{}, true, where)
 	}
-	classes := []string{"coll", "shard", "column", "key", "back", "log"}
+	classes := []string{"coll", "shard", "column", "key", "back", "log", "enum"}
 	idx := map[string]int{}
 	for i, c := range classes {
 		idx[c] = i
 	}
 	var b strings.Builder
-	b.WriteString("(* GENERATED by /verif/translate from /repo on every run. Do not edit.\n   Lock classes: 0 coll (Collection.lock), 1 shard (a latch of Collection.slock), 2 column (column.lock),\n   3 key (columnKey.lock), 4 back (columnSortIndex.backLock), 5 log (commit.Log.lock).\n   An edge (a, b) says: somewhere, b is acquired while a is held. *)\n")
-	b.WriteString("From Coq Require Import List.\nImport ListNotations.\n\nDefinition lock_classes : nat := 6.\nDefinition lock_edges : list (nat * nat) := [\n")
+	b.WriteString("(* GENERATED by /verif/translate from /repo on every run. Do not edit.\n   Lock classes: 0 coll (Collection.lock), 1 shard (a latch of Collection.slock), 2 column (column.lock),\n   3 key (columnKey.lock), 4 back (columnSortIndex.backLock), 5 log (commit.Log.lock), 6 enum (columnEnum.lock,\n   the dictionary shared by all blocks).\n   An edge (a, b) says: somewhere, b is acquired while a is held. *)\n")
+	fmt.Fprintf(&b, "From Coq Require Import List.\nImport ListNotations.\n\nDefinition lock_classes : nat := %d.\nDefinition lock_edges : list (nat * nat) := [\n", len(classes))
 	var keys [][2]string
 	for k := range a.edges {
 		_, ok1 := idx[k[0]]
